@@ -5,7 +5,8 @@ trace of one case (what each command left behind) and reports every event that t
   * a sanitizer report (out-of-bounds read/write, use after free, NULL dereference, stack/heap overflow),
   * the process dying (signal, non-zero exit, timeout),
   * C undefined behaviour observed by UBSan (signed overflow in index arithmetic),
-  * a command that produced neither a value nor an LPC error.
+  * a command that produced neither a value nor an LPC error,
+  * a generated self-checking program reporting a mismatch (re-entrant callbacks; values held across an efun error).
 
 Every command of a case leaves exactly one result line (`r ...` or `fz ...`), so the command that was executing when
 a forbidden event happened is identified by counting result lines.
@@ -21,6 +22,8 @@ inductive Ev
   | crash (what : String)           -- the driver process died
   | malformed (line : String)
   | reent (tests bad : Nat) (first : String)   -- re-entrant callback program: results compared with LPC references
+  | holder (tests bad : Nat) (first : String)  -- error-path program: a value still held by a second holder after an
+                                               -- efun raised an error is compared with an independently built copy
   deriving Repr, DecidableEq
 
 structure Violation where
@@ -59,6 +62,8 @@ def judgeEv (cmds : List String) : Nat → List Ev → List Violation
   | k, .malformed l :: rest => ⟨"malformed-trace", l, cmdAt cmds k⟩ :: judgeEv cmds k rest
   | k, .reent t b f :: rest =>
     (if b > 0 then [⟨"reentrant-callback-mismatch", s!"bad={b}/{t} first={f}", cmdAt cmds k⟩] else []) ++ judgeEv cmds k rest
+  | k, .holder t b f :: rest =>
+    (if b > 0 then [⟨"holder-corrupted-after-efun-error", s!"bad={b}/{t} first={f}", cmdAt cmds k⟩] else []) ++ judgeEv cmds k rest
   | k, _ :: rest => judgeEv cmds k rest
 
 def Violation.render (v : Violation) : String :=
@@ -68,6 +73,7 @@ def Violation.render (v : Violation) : String :=
 def clean : Ev → Bool
   | .ub _ | .sanitizer _ | .crash _ | .malformed _ => false
   | .reent _ b _ => b == 0
+  | .holder _ b _ => b == 0
   | .result t => !(t = "r !noops" || t = "r !nofn" || t = "r !build")
   | _ => true
 
